@@ -107,13 +107,18 @@ func c14Faulty(r *rt.Rand, t gen.T) (*gen.Node, string) {
 			n = gen.Bin("+", gen.Int(1), V())
 		}
 	default:
-		switch r.Intn(10) {
+		switch r.Intn(12) {
+		case 10: // an element of a list of numbers is a number
+			n = gen.Bin("=", gen.IndexI(gen.Call([]string{"ilist", "int_list", "flist"}[r.Intn(3)], gen.Int(1), gen.Int(2)), 0), gen.Str("1"))
+		case 11:
+			n = gen.Bin("^=", gen.IndexI(gen.Call("list", gen.Call("int", V()), gen.Int(2)), 1), gen.Str("2"))
 		case 6: // the keywords and / or take Boolean operands like & and | do
 			if r.Bool() {
 				n = gen.And(gen.Int(1), gen.Int(2))
 			} else {
 				n = gen.Or(K(), V())
 			}
+			n.Sym = false // spelled with the keyword
 		case 7: // a Boolean on the left of IN
 			n = gen.In(gen.Bin("=", K(), gen.Str("a")), gen.Bool(true), gen.Bool(false))
 		case 8: // = between lists
@@ -190,7 +195,20 @@ func (k c14) positive(c *rt.Ctx, st *gen.Store) {
 			"select key, value where (key = 'a') = (value = 'b') | (key ^= 'k') != is_int(value)",
 			"select * where is_int(value) and (key ^= 'k' or !(value = 'x')) and true",
 			"select * where key in ('a', 'k1') = (value in ('1', '2'))",
-		}[r.Intn(8)]
+			// the bare name of a select field wherever an operand can stand: under !, as the whole
+			// filter, as an item of an IN list, as a BETWEEN bound
+			"select is_int(value) as x, key where !x",
+			"select key ^= 'k' as x, value where x",
+			"select key as a, value where a in ('k1', a, 'zz')",
+			"select strlen(key) + 1 as n, key where n between 0 and n",
+			"select key as a, value as b where 'k1' in (a, b) | !(a in (b))",
+			"select is_int(value) as x, is_float(value) as y where !x | !y",
+			// an element of a list of numbers is a number, of a list of texts a text
+			"select * where ilist(1, 2)[0] > 0 & flist(1.5, 2.5)[1] < 3",
+			"select key, list(strlen(key), 2)[0] * 2 as x where x >= 0 & list(1, 2)[1] = 2",
+			"select int_list(strlen(key), 7) as l, key where l[1] = 7 & l[0] between 0 and 99",
+			"select key where split('a,b', ',')[0] = 'a' & list('x', 'y')[1] ^= 'y'",
+		}[r.Intn(18)]
 		rec.Inc("group_by_unselected_fields_and_boolean_operands")
 	}
 	rec.DistinctS(q)
@@ -395,13 +413,17 @@ func (k c14) negative(c *rt.Ctx, st *gen.Store) {
 		fault, pos = f, "call-arg"
 	case 17: // a field defined through another field's name, misused by the filter
 		q = []string{
+			"select int(value) as x, key where x | key = 'a1'",
+			"select key, upper(value) as u where key ^= 'b' & u",
+			"select strlen(key) as n where !(key = 'a') | n",
+			"select split(value, ',') as l, key where l & key != 'zz'",
 			"select key as a, a + 'x' as b where b > 1",
 			"select key as a, a + 'x' as b where b between 1 and 2",
 			"select key as a, a + 'x' as b, value where strlen(value) >= b",
 			"select value as v0, v0 + ':' + key as c where !(c = 1)",
 			"select strlen(key) as n, n * 2 as m where m ^= 'k'",
 			"select key as a, upper(a) as u, u + a as w where w * 2 > 1",
-		}[r.Intn(6)]
+		}[r.Intn(10)]
 		fault, pos = "operand-type", "name-chain"
 	case 18: // unknown function / wrong argument count nested below an IN item or a BETWEEN bound
 		bad := []string{"upper('c', 'd')", "nosuch('x')", "lower(upper('b', 'c'))", "upper(nosuch2('x'))", "str(int(value, 2))", "join()"}[r.Intn(6)]
@@ -483,7 +505,15 @@ func (k c14) negative(c *rt.Ctx, st *gen.Store) {
 		}
 	case 20: // an aggregate function where only pair-wise functions can stand
 		ag := []string{"count(1) > 0", "sum(int(value)) > 1", "max(key) = 'k'", "strlen(group_concat(key, ',')) > 1", "avg(strlen(key)) >= 0"}[r.Intn(5)]
-		switch r.Intn(5) {
+		switch r.Intn(7) {
+		case 5: // in a select field, but inside the arguments of another call or under !
+			q = sel([]string{"upper(group_concat(key, ','))", "!(count(1) > 2)", "sum(int(count(1)))", "strlen(max(key)) + 1", "key, str(sum(int(value)))", "count(1), lower(min(key)) as m", "value, join('-', value, count(1))"}[r.Intn(7)],
+				[]string{"true", "key ^= 'k'", "int(value) > 0"}[r.Intn(3)])
+			if strings.HasPrefix(q, "select value,") {
+				q += " group by value"
+			}
+		case 6:
+			q = sel("key as k, "+[]string{"upper(group_concat(key, ','))", "strlen(max(value))"}[r.Intn(2)]+" as u", "key ^= 'k' group by k")
 		case 0:
 			q = sel("*", ag)
 		case 1:
